@@ -211,21 +211,9 @@ def solve_scipy(
     max_violation = 0.0
 
     if result.success and scipy_constraints:
-        for c in scipy_constraints:
-            c_val = c["fun"](result.x)
-            # Scaled tolerance based on constraint magnitude
-            scaled_tol = atol + rtol * max(1.0, abs(c_val))
-
-            if c["type"] == "ineq" and c_val < -scaled_tol:
-                # Inequality constraint violated (should be >= 0)
-                violation = -c_val
-                max_violation = max(max_violation, violation)
-                constraints_violated = True
-            elif c["type"] == "eq" and abs(c_val) > scaled_tol:
-                # Equality constraint violated (should be == 0)
-                violation = abs(c_val)
-                max_violation = max(max_violation, violation)
-                constraints_violated = True
+        constraints_violated, max_violation = _check_constraints(
+            scipy_constraints, result.x, atol, rtol
+        )
 
     # If SLSQP returned "optimal" but constraints are violated, retry with trust-constr
     if constraints_violated and method == "SLSQP":
@@ -255,9 +243,11 @@ def solve_scipy(
     elif "infeasible" in result.message.lower() or constraints_violated:
         status = SolverStatus.INFEASIBLE
     elif "positive directional derivative" in result.message.lower():
-        # SLSQP reports this when it converged but hit numerical precision limits
-        # The solution is typically still good - treat as optimal
-        status = SolverStatus.OPTIMAL
+        # SLSQP reports this when it converged but hit numerical precision limits.
+        # The solution is typically still good - treat as optimal, but only if
+        # the point is feasible (SLSQP also ends this way on infeasible problems)
+        violated, _ = _check_constraints(scipy_constraints, result.x, atol, rtol)
+        status = SolverStatus.INFEASIBLE if violated else SolverStatus.OPTIMAL
     else:
         status = SolverStatus.FAILED
 
@@ -279,6 +269,33 @@ def solve_scipy(
         message=message,
         solve_time=solve_time,
     )
+
+
+def _check_constraints(
+    scipy_constraints: list, x: np.ndarray, atol: float, rtol: float
+) -> tuple[bool, float]:
+    """Check SciPy constraint dicts at x with a scaled tolerance.
+
+    Returns (violated, max_violation) using atol + rtol * max(1, |value|).
+    """
+    constraints_violated = False
+    max_violation = 0.0
+    for c in scipy_constraints:
+        c_val = c["fun"](x)
+        # Scaled tolerance based on constraint magnitude
+        scaled_tol = atol + rtol * max(1.0, abs(c_val))
+
+        if c["type"] == "ineq" and c_val < -scaled_tol:
+            # Inequality constraint violated (should be >= 0)
+            violation = -c_val
+            max_violation = max(max_violation, violation)
+            constraints_violated = True
+        elif c["type"] == "eq" and abs(c_val) > scaled_tol:
+            # Equality constraint violated (should be == 0)
+            violation = abs(c_val)
+            max_violation = max(max_violation, violation)
+            constraints_violated = True
+    return constraints_violated, max_violation
 
 
 def _compute_initial_point(
